@@ -130,3 +130,9 @@ pub fn catch<T>(f: impl FnOnce() -> T) -> Result<T, String> {
 pub fn quiet_panics() {
     std::panic::set_hook(Box::new(|_| {}));
 }
+
+// Shared harness modules. Each has ONE owner (see CONVENTIONS.md); the files start as stubs.
+pub mod dtlsproxy; // owner: DTLS handshake checks (C11, C02)
+pub mod ministack; // owner: SCTP checks (C01, C12, C13): ICE-conn + DTLS + SCTP pair behind a decrypting proxy
+pub mod pcpair; // owner: lifecycle checks (C17, C10): two PeerConnections signalled in-process
+pub mod refimpl; // owner: SRTP checks (C04, C05): thin wrappers over reference crates
